@@ -49,6 +49,7 @@ fn base_check(id: &str, mode: &str, level: &str) -> GridCheck {
         exhaustive: None,
         extra_env: vec![],
         known_sig: None,
+        extra_deps: String::new(),
         group: 1,
         post: None,
     }
@@ -435,8 +436,144 @@ fn c17(tier: &str, seed: u64) -> GridCheck {
     c
 }
 
+/// C16 programs: a grid program plus an option prefix legal for its macro kind
+fn c16_progs(seed: u64, count: usize, fx: bool) -> Vec<Prog> {
+    let mut runner = new_runner(seed, if fx { 0x16f } else { 0x160 }, 1);
+    let mut out = Vec::new();
+    for i in 0..count {
+        let mac = if fx { ["join_async", "try_join_async", "join_async_spawn", "try_join_async_spawn", "async_spawn", "try_async_spawn"][i % 6] } else { KINDS8[i % 8] };
+        let kind = macro_kind(mac);
+        // variant of the option set
+        let variant = (i / 8) % 4;
+        let mut cfg = GenCfg::base(vec![mac]);
+        cfg.n = (1, 6);
+        cfg.depth = (1, 3);
+        cfg.cell = (0, 2);
+        cfg.wrappers = 0.05;
+        cfg.caps = 0.15;
+        cfg.names = 0.1;
+        cfg.handler = 0.3;
+        cfg.equal_depths = 0.2;
+        let mut opts = Opts::default();
+        if fx {
+            opts.futures_path = Some("::jvrt::fx".to_string());
+            if variant == 1 && kind.is_try {
+                opts.transpose = Some(false); // the default for try async, written out
+            }
+        } else if !kind.is_async && !kind.is_spawn {
+            match variant {
+                0 => opts.joiner = Some("jv_join".into()),
+                1 => {
+                    opts.joiner = Some("jv_join_lazy".into());
+                    opts.lazy = Some(true);
+                }
+                2 if kind.is_try => {
+                    // the joiner returns the already transposed Result; single-step programs only
+                    // (multi-step / unequal depths: known finding D3, excluded by construction)
+                    opts.joiner = Some("jv_tjoin".into());
+                    opts.transpose = Some(false);
+                    cfg.allow_opt = false;
+                    cfg.depth = (1, 1);
+                    cfg.n = (2, 6);
+                }
+                2 => {
+                    opts.joiner = Some("jv_join".into());
+                    opts.lazy = Some(false);
+                }
+                _ => {
+                    // explicit defaults only
+                    opts.lazy = Some(false);
+                    if kind.is_try {
+                        opts.transpose = Some(true);
+                    }
+                }
+            }
+        } else if !kind.is_async {
+            match variant {
+                0 | 2 => opts.joiner = Some("jv_join".into()),
+                1 => {
+                    opts.joiner = Some("jv_join".into());
+                    opts.lazy = Some(true);
+                }
+                _ => {
+                    opts.lazy = Some(true);
+                    if kind.is_try {
+                        opts.transpose = Some(true);
+                    }
+                }
+            }
+        } else {
+            match variant {
+                0 | 2 => opts.joiner = Some(if kind.is_try { "jv_atry" } else { "jv_ajoin" }.into()),
+                1 => {
+                    opts.joiner = Some(if kind.is_try { "jv_atry" } else { "jv_ajoin" }.into());
+                    if kind.is_try {
+                        opts.transpose = Some(false);
+                    }
+                    opts.lazy = Some(false);
+                }
+                _ => {
+                    opts.lazy = Some(false);
+                    opts.futures_path = Some("::futures".to_string());
+                    if kind.is_try {
+                        opts.transpose = Some(false);
+                    }
+                }
+            }
+        }
+        if opts.joiner.is_some() && (kind.is_async || opts.joiner.as_deref() == Some("jv_tjoin")) {
+            cfg.allow_opt = false;
+        }
+        let strat = gen::prog_strategy(cfg.clone(), Some(mac));
+        let mut p = None;
+        for _ in 0..50 {
+            let q = strat.new_tree(&mut runner).expect("generation cannot fail").current();
+            if gen::is_d4(&q) {
+                EXCLUDED_D4.fetch_add(1, std::sync::atomic::Ordering::SeqCst);
+                continue;
+            }
+            p = Some(q);
+            break;
+        }
+        let mut p = p.expect("program");
+        // a random order of the options that are present
+        let mut order: Vec<u8> = vec![0, 1, 2, 3];
+        let r = i / 3;
+        order.rotate_left(r % 4);
+        if (i / 5) % 2 == 1 {
+            order.reverse();
+        }
+        opts.order = order;
+        p.opts = opts;
+        out.push(p);
+    }
+    out
+}
+
+fn c16(tier: &str, seed: u64, fx: bool) -> GridCheck {
+    let mut c = base_check("C16", "C16", "exploration");
+    let count = if tier == "quick" { if fx { 96 } else { 384 } } else if fx { 960 } else { 3840 };
+    c.progs = c16_progs(seed, count, fx);
+    c.budget = if tier == "quick" { 32 } else { 128 };
+    if fx {
+        c.extra_deps = "#nofutures".to_string();
+    }
+    c.rule = if fx {
+        "futures-path stage: random grid programs under the six async macro names with `futures_crate_path(::jvrt::fx)` (a stand-in whose join! / try_join! log their use), compiled in a crate that has NO dependency called `futures`, so any hard-coded `::futures` path fails to compile; oracle: the shim's join!/try_join! is used exactly once per executed step with more than one active branch, and the value is the model's. Non-trivial = a multi-step program with a single-active step, or >= 2 options".to_string()
+    } else {
+        "runtime stage: random grid programs (1-6 branches, 1-3 steps, differing depths incl. single-active steps) under the eight macro kinds with an option prefix legal for the kind, options written in rotated / reversed orders: sync - eager logging joiner, lazy joiner (receives closures, calls them in reverse order) with lazy_branches(true), self-transposing joiner with transpose_results(false) (single-step programs), explicit defaults only; thread-spawning - joiner passing the thread handles through, with / without explicit lazy_branches(true); async / task-spawning - joiners wrapping join! / try_join! that tag each output, explicit transpose_results(false) / lazy_branches(false) / futures_crate_path(::futures). Inputs: enumerated / sampled failure plans. Oracle: the joiner is invoked exactly once per executed step with more than one active branch, with that arity, never for a single active branch; argument p evaluates exactly the p-th active branch (sequential macros: every event of that branch lies between the joiner's marks for p; lazy: nothing before the thunk is called); the values that continue carry the joiner's position tags (its output was used); the macro's value is the model's - so explicit defaults behave like omitted options. Non-trivial = >= 2 options, or an option together with a single-active step".to_string()
+    };
+    c
+}
+
 pub fn build(id: &str, tier: &str, seed: u64) -> Option<GridCheck> {
     Some(match id {
+        "C16" => c16(tier, seed, false),
+        "C16fx" => {
+            let mut c = c16(tier, seed, true);
+            c.id = "C16".to_string();
+            c
+        }
         "C17" => c17(tier, seed),
         "C19" => c19(tier, seed),
         "C07" => c07(tier, seed),
@@ -460,7 +597,13 @@ pub fn run(id: &str, tier: &str, seed: u64) -> i32 {
         render::MEASURE_ALLOC.store(true, std::sync::atomic::Ordering::SeqCst);
     }
     match build(id, tier, seed) {
-        Some(c) => grid::run(c, tier, seed),
+        Some(c) => {
+            let code = grid::run(c, tier, seed);
+            if id == "C16" && !probe_known("C16") && code == 0 {
+                return 2;
+            }
+            code
+        }
         None => {
             eprintln!("no engine-R check for {}", id);
             2
@@ -498,4 +641,44 @@ pub fn warm() -> i32 {
     }
     println!("setup: generated-crate dependencies built");
     code
+}
+
+/// Known-finding probes: the specific input of an open finding is compiled against the current
+/// tree. While it still fails the way the finding says, the KNOWN-FINDING line is printed; once it
+/// compiles the finding is gone and nothing is printed. Returns false on an infrastructure problem.
+pub fn probe_known(property: &str) -> bool {
+    let known = crate::evid::Known::load();
+    let probes: Vec<(&str, &str, &str)> = vec![
+        (
+            "C02",
+            "try-async/step>=1/error-type-used-before-pinned",
+            "fn case_0() -> LocalBoxFuture<'static, Out> {\n    use jvrt::cb::ar::*;\n    let __fut = ::join::try_join_async! {\n        init(1) ~<= >>> ..bump(3) -> tw(5) <<<\n    };\n    Box::pin(async move { let r: Result<Tok, Tok> = __fut.await; match r { Ok(v0) => Out::Toks(vec![v0.h]), Err(e) => Out::One(Val::Err(e.h)) } })\n}\n",
+        ),
+        (
+            "C16",
+            "sync-try/transpose_results(false)/custom-joiner/unequal-depths",
+            "fn case_0() -> LocalBoxFuture<'static, Out> {\n    use jvrt::cb::r::*;\n    let __res = ::join::try_join! {\n        custom_joiner(jvrt::jv_tjoin!)\n        transpose_results(false)\n        init(1),\n        init(2) ~-> |t: Tok| -> W {{ xa(3, t) }},\n        init(4) ~-> |t: Tok| -> W {{ xa(5, t) }}\n    };\n    let r: Result<(Tok, Tok, Tok), Tok> = __res;\n    Box::pin(async move { match r { Ok((a, b, c)) => Out::Toks(vec![a.h, b.h, c.h]), Err(e) => Out::One(Val::Err(e.h)) } })\n}\n",
+        ),
+    ];
+    let mut ok = true;
+    for (prop, sig, code) in probes {
+        if prop != property {
+            continue;
+        }
+        let Some(entry) = known.open(prop, sig) else { continue };
+        let code = code.replace("{{", "{").replace("}}", "}");
+        let case = crate::batch::CaseSrc { idx: 0, code, table: String::new(), ref_from: None };
+        let main = |_: &[&crate::batch::CaseSrc]| "fn main() { let _ = case_0; }\n".to_string();
+        let res = crate::batch::build_and_run_src(&format!("jvp_{}", prop.to_lowercase()), render::file_header(), &[case], &main, &[], &[], "", 120, 1);
+        if !res.compile_fail.is_empty() {
+            println!("KNOWN-FINDING: property={} {} [probe input still fails to compile: {}]", prop, entry["what"].as_str().unwrap_or(""), res.compile_fail.values().next().and_then(|v| v.first()).cloned().unwrap_or_default());
+        } else if !res.infra.is_empty() && res.reports.is_empty() {
+            // the probe binary prints nothing; an empty report list with a build error is an infrastructure problem
+            if res.infra.iter().any(|i| i.contains("build failed")) {
+                eprintln!("known-finding probe for {} could not be built: {:?}", prop, res.infra);
+                ok = false;
+            }
+        }
+    }
+    ok
 }
